@@ -412,6 +412,64 @@ impl Admin {
         let mint = r.gen_range(0..w.mints.len());
         let (mkey, prog) = (w.mints[mint].key, w.mints[mint].program());
         let cfg = rand_bank_compact(r);
+        if r.gen_bool(0.3) && matches!(w.mints[mint].kind, TokKind::Classic | TokKind::T22) && w.mints[mint].decimals <= 9 {
+            // the three pass-through creation instructions, through the world's own set-up path
+            // (venue accounts planted, creation journalled for the monitors), signed by `s`
+            let now = w.chain.now();
+            let px = PythPx::simple(1_000_000, -6, now);
+            let seed = 800_000 + self.steps;
+            let st = cfg.operational_state;
+            let (ai, am) = (cfg.asset_weight_init, cfg.asset_weight_maint);
+            w.create_as = Some(clone_kp(&s));
+            let n0 = w.banks.len();
+            let res = match r.gen_range(0..3) {
+                0 => {
+                    let mut c = marginfi::state::kamino::KaminoConfigCompact::default();
+                    c.asset_weight_init = ai;
+                    c.asset_weight_maint = am;
+                    c.operational_state = st;
+                    c.risk_tier = cfg.risk_tier;
+                    c.deposit_limit = cfg.deposit_limit;
+                    c.oracle_max_age = cfg.oracle_max_age;
+                    c.total_asset_value_init_limit = cfg.total_asset_value_init_limit;
+                    w.add_bank_kamino(self.g, mint, c, px, 1_000_000, 1_000_000, seed).await
+                }
+                1 => {
+                    let mut c = marginfi::state::solend::SolendConfigCompact::default();
+                    c.asset_weight_init = ai;
+                    c.asset_weight_maint = am;
+                    c.operational_state = st;
+                    c.risk_tier = cfg.risk_tier;
+                    c.deposit_limit = cfg.deposit_limit;
+                    c.oracle_max_age = cfg.oracle_max_age;
+                    c.total_asset_value_init_limit = cfg.total_asset_value_init_limit;
+                    w.add_bank_solend(self.g, mint, c, px, 1_000_000, 1_000_000, seed).await
+                }
+                _ => {
+                    let mut c = marginfi::state::drift::DriftConfigCompact::default();
+                    c.asset_weight_init = ai;
+                    c.asset_weight_maint = am;
+                    c.operational_state = st;
+                    c.risk_tier = cfg.risk_tier;
+                    c.deposit_limit = cfg.deposit_limit;
+                    c.oracle_max_age = cfg.oracle_max_age;
+                    c.total_asset_value_init_limit = cfg.total_asset_value_init_limit;
+                    w.add_bank_drift(self.g, mint, c, px, 10_512_345_678, 3, seed).await
+                }
+            };
+            w.create_as = None;
+            // the new bank stays on chain but out of the world's bank list: nobody ever enters it
+            while w.banks.len() > n0 {
+                w.banks.pop();
+            }
+            m.r.count(if res.is_ok() { "admin.venue_bank_creations_accepted" } else { "admin.venue_bank_creations_rejected" });
+            // judge it now (the journal is read at the next monitored execution)
+            let out = w.exec(m, &[w.ix_accrue(0)], &[]).await;
+            return match res {
+                Ok(_) => out,
+                Err(o) => o,
+            };
+        }
         let out = if r.gen_bool(0.5) {
             let nb = w.next_kp();
             let i = ix::add_bank(gk, s.pubkey(), p, fw, mkey, nb.pubkey(), prog, cfg);
